@@ -136,6 +136,20 @@ CHECKS["C07"] = dict(
     technique="Coq proof (list/set lemmas, telescoping, field algebra) + correspondence of validation/trigger + coupled-solve oracles",
     design="4/C07")
 
+CHECKS["C04"] = dict(
+    text="A Gallina model states equilibrium on the UN-reduced receiver network (root, manifolds, tube tops; options rigid / "
+         "disconnect / numeric; tubes as affine springs): rigid compatibility, tube-top, manifold and root (or rigid-cluster) "
+         "force balances.  Theorems: the edge assembly is orientation independent and a numeric edge carries stiffness "
+         "times relative displacement; every equilibrium has rigid tubes sharing one displacement, disconnected tubes "
+         "balanced on their own, numeric connections carrying k*(relative displacement).  The implementation's whole "
+         "pipeline (network build, rigid contraction, disconnect split, assembly, Newton, copy-back) is certified against "
+         "that equilibrium for every option assignment of small receivers (exhaustive) and sampled larger ones.",
+    note="partial: uniqueness of the equilibrium / agreement with direct stiffness is validated by an independent dense "
+         "solve, not proved; networkx and numpy.linalg.solve are certified through their result only; real (non-affine) "
+         "tube solvers are outside the model.",
+    technique="Coq proof (algebra over Q) + exhaustive equilibrium-certificate correspondence by vm_compute",
+    design="4/C04")
+
 NOT_YET = {}
 
 def main():
